@@ -45,7 +45,7 @@ Proof.
 Qed.
 
 (* ---------------------------------------------------------------- Gaussian dyadics *)
-Notation cf := (cplx AF).
+Local Notation cf := (cplx AF).
 Definition Dc (z : cf) (a b e : Z) : Prop := Dy (re z) a e /\ Dy (im z) b e.
 Definition Dzc (z : cf) (a b e : Z) : Prop := Dz (re z) a e /\ Dz (im z) b e.
 
@@ -362,7 +362,7 @@ Qed.
 Local Close Scope R_scope.
 
 (* ---------------------------------------------------------------- non-vacuity: delta = 2^-20, Gaussian-integer 2 x 2 matrix *)
-Notation Cf a b := (mkC (A := AF) a%float b%float).
+Local Notation Cf a b := (mkC (A := AF) a%float b%float).
 Definition exc_M : matrix (CArith SAF) := @mkM (CArith SAF) [Cf 1 2; Cf (-1) 0; Cf 0 3; Cf 2 (-1)] 2 2.
 Definition exc_c : list cf := [Cf 0.5 0.25; Cf 1 0].
 Definition exc_x : list cf := [Cf 0.5 (-1.25); Cf 3 0.75].
